@@ -35,6 +35,14 @@ CHECKS["C12"] = dict(
     ref="DESIGN.md 5.C12",
 )
 
+CHECKS["C11"] = dict(
+    engine="symx+z3",
+    technique="bounded symbolic execution (symx/z3) of the real fill_context and contextlib glue with the wrapper-chain length n as a z3 Int split by the solver at every hook step (0..99, 100, >=101)",
+    text="For every n in 0..105 (thorough 0..130), 4 endings (None, PRUNE, (), cycle), class-based and generator-based (incl. yield-from) manager chains, obj-redirecting elaborate hooks, exiting and non-exiting contexts, inside and outside extract: elaborate ran on the original and after each unwrap, on reset state; final obj/inner_stack/children/hide are those of the last link; >100 steps gives RuntimeError. Holds within the bound.",
+    note="n == 100 exactly is accepted with either outcome. Managers equal to () are outside. The generator-based links are real contextlib managers with really suspended generators.",
+    ref="DESIGN.md 5.C11",
+)
+
 NOT_APPLICABLE = {
     "C06": "Quantifies over interpreter bookkeeping (reference counts, object lifetime, crashes) behind a ctypes boundary; no value a solver can range over, and any symbolic engine perturbs the very refcounts measured (DESIGN.md 5.C06).",
     "C07": "OS-thread interleavings against raw-memory reads; depends on when CPython releases the GIL, not on Python-level data; needs a runtime schedule controller, a different technique family (DESIGN.md 5.C07).",
